@@ -335,17 +335,52 @@ class ModuleHandle(object):
                      for m in sorted(set(submodule_names)))
 
     @staticmethod
+    def _target_names(target):
+        """
+        Names bound at module level by an assignment target: the name itself,
+        or the names inside a (possibly nested or starred) tuple/list target.
+        Attribute and subscript targets don't bind a name.
+        """
+        if isinstance(target, ast.Name):
+            return [target.id]
+        if isinstance(target, (ast.Tuple, ast.List)):
+            return [n for elt in target.elts
+                    for n in ModuleHandle._target_names(elt)]
+        if isinstance(target, ast.Starred):
+            return ModuleHandle._target_names(target.value)
+        return []
+
+    @staticmethod
     def _member_from_node(node):
+        target_names = ModuleHandle._target_names
         extractors = {
             # Top-level assignments (as opposed to member assignments
             # whose targets are of type ast.Attribute).
-            ast.Assign: lambda x: [t.id for t in x.targets if isinstance(t, ast.Name)],
+            ast.Assign: lambda x: [n for t in x.targets for n in target_names(t)],
+            # ``x: int = 3`` binds ``x``; a bare annotation ``x: int`` doesn't.
+            ast.AnnAssign: lambda x: (target_names(x.target)
+                                      if x.value is not None else []),
             ast.ClassDef: lambda x: [x.name],
             ast.FunctionDef: lambda x: [x.name],
+            ast.AsyncFunctionDef: lambda x: [x.name],
         }
         if isinstance(node, tuple(extractors.keys())):
             return extractors[type(node)](node)
         return []
+
+    @staticmethod
+    def _is_all_assignment(node):
+        """
+        Whether ``node`` is ``__all__ = ...`` or ``__all__: T = ...``.
+        """
+        if isinstance(node, ast.Assign):
+            targets = node.targets
+        elif isinstance(node, ast.AnnAssign) and node.value is not None:
+            targets = [node.target]
+        else:
+            return False
+        return any(isinstance(t, ast.Name) and t.id == "__all__"
+                   for t in targets)
 
     @cached_property
     def exports(self):
@@ -381,13 +416,12 @@ class ModuleHandle(object):
             # Iterate through the nodes and reconstruct the
             # value of __all__
             for n in ast_mod:
-                if isinstance(n, ast.Assign):
-                    if "__all__" in self._member_from_node(n):
-                        try:
-                            all_members = list(ast.literal_eval(n.value))
-                            all_is_good = True
-                        except (ValueError, TypeError):
-                            all_is_good = False
+                if self._is_all_assignment(n):
+                    try:
+                        all_members = list(ast.literal_eval(n.value))
+                        all_is_good = True
+                    except (ValueError, TypeError):
+                        all_is_good = False
                 elif isinstance(n, ast.AugAssign) and \
                      isinstance(n.target, ast.Name) and \
                      n.target.id == "__all__" and all_is_good:
